@@ -27,13 +27,14 @@ pub uninterp spec fn calibrated(w: Seq<i16>, delay: usize, baseline: i16, gain: 
 pub open spec fn slots_same(a: Seq<Option<Vec<f64>>>, b: Seq<Option<Vec<f64>>>) -> bool { a =~= b }
 pub open spec fn v3(p: AdcPacket) -> AdcV3Packet { match p { AdcPacket::V3(q) => q } }
 
-// What the statement of C10 says about one anode-wire bank whose payload decoded to `p`, given the slots filled so far.
+// What the statement of C10 says about one anode-wire bank whose payload decoded to `p`; `seen[w]` = an earlier bank of this event
+// was accepted for wire w (whether or not it left samples to store).
 pub enum WireOutcome {
     Ignored,                                                  // no samples: nothing happens
     Rejected(TryMainEventFromDataBanksError),
     Stored { wire: int, delay: usize, baseline: i16, gain: f64 },   // calibrated waveform goes to this slot (if not empty after the delay)
 }
-pub open spec fn wire_outcome(run: u32, name: Adc32BankName, p: AdcV3Packet, slots: Seq<Option<Vec<f64>>>) -> WireOutcome {
+pub open spec fn wire_outcome(run: u32, name: Adc32BankName, p: AdcV3Packet, seen: Seq<bool>) -> WireOutcome {
     if p.waveform@.len() == 0 { WireOutcome::Ignored }
     else { match p.channel_id {
         ChannelId::A16(_) => WireOutcome::Rejected(TryMainEventFromDataBanksError::WireBankWithBvChannel { bank_name: name }),
@@ -44,7 +45,7 @@ pub open spec fn wire_outcome(run: u32, name: Adc32BankName, p: AdcV3Packet, slo
             } else { match wire_lookup(run, board, ch) {
                 Err(e) => WireOutcome::Rejected(TryMainEventFromDataBanksError::WirePositionError(e)),
                 Ok(w) => {
-                    if slots[w.0 as int].is_some() { WireOutcome::Rejected(TryMainEventFromDataBanksError::DuplicateWireBank { bank_name: name }) }
+                    if seen[w.0 as int] { WireOutcome::Rejected(TryMainEventFromDataBanksError::DuplicateWireBank { bank_name: name }) }
                     else { match wire_baseline_table(run, w) {
                         Err(e) => WireOutcome::Rejected(TryMainEventFromDataBanksError::WireBaselineError(e)),
                         Ok(baseline) => match wire_gain_table(run, w) {
